@@ -14,7 +14,7 @@ Go facts mirrored:
 * `NewClient`: `ClientStaleCloseDelay > 0` → `timerOp = stale`, timer armed.
 * stale: `closeStale` closes with DisconnectStale iff not authenticated (or unusable); otherwise
   nothing — in particular NO re-arm.
-* ping: `lastPing = now`; ping frame; `pongTimeout > 0` → `nextPong = now + pongTimeout`;
+* ping: `lastPing = now`; ping frame; `pongTimeout > 0 && !unidirectional` → `nextPong = now + pongTimeout`;
   `nextPing = now + pingInterval`; reschedule.
 * pong command: before authentication → DisconnectBadRequest; `lastPing ≤ 0` (no ping outstanding,
   a pong flips the sign) → DisconnectBadRequest; else sign flip and `lastSeen = now`.
@@ -76,6 +76,7 @@ structure Cfg where
   csr : Bool := false
   hasRH : Bool := false
   hasSRH : Bool := false
+  uni : Bool := false       -- Transport.Unidirectional(): the client cannot answer pings
 deriving Repr, DecidableEq, Inhabited
 
 structure SubC where
@@ -231,7 +232,7 @@ def presenceTick (c : Cfg) (s : St) (now : Nat) : St × List Out :=
 /-- `sendPing` -/
 def sendPing (c : Cfg) (s : St) (now : Nat) : St × List Out :=
   let s := { s with lastPing := now, ponged := false }
-  let s := if c.pongTimeout > 0 then { s with nextPong := now + c.pongTimeout } else s
+  let s := if c.pongTimeout > 0 ∧ c.uni = false then { s with nextPong := now + c.pongTimeout } else s
   (schedule { s with nextPing := now + c.pingInterval }, [.ping])
 
 /-- `checkPong` -/
